@@ -7,4 +7,4 @@ Record case := { k_cfg : cfg; k_ops : list op; k_obs : list rec; k_preds : list 
 
 Definition check (k : case) : verdict :=
   if negb (wf (k_ops k)) then VSkip else
-  mk_verdict None (oracle (k_cfg k) (k_ops k) (k_obs k)).
+  mk_verdict None (oracle_named (k_cfg k) (k_ops k) (k_obs k)).
